@@ -177,3 +177,7 @@ pub fn is_stuck_error(e: &quiver_core::error::Error) -> bool {
 pub fn hex(b: &[u8]) -> String {
     format!("0x{}", b.iter().map(|x| format!("{:02x}", x)).collect::<String>())
 }
+
+pub fn parses(src: &str) -> bool {
+    std::panic::catch_unwind(|| parse(src).is_ok()).unwrap_or(false)
+}
